@@ -4,6 +4,7 @@ C06 — iter() is a double-ended exact-size fused iterator over all variants asc
 import EnumToolsModel.Lemmas.IterSim
 import EnumToolsModel.Thm.C05
 import EnumToolsModel.Generated.Inventory
+import EnumToolsModel.Lemmas.TemplatesRun
 namespace ET.Thm
 
 /-- the enum's `next` / `next_back`, by position (from C05) -/
@@ -86,5 +87,42 @@ example : exD1.WF ∧
     (iterInit exD1 .nextAndBack).bind (fun st => IterState.run (nextFn exD1) (nextBackFn exD1) st [.next, .nextBack, .nth 1, .nextBack, .nextBack, .next, .len])
       = (.ok (.nb (some 3) (some (-4)) 0, [.item (some (-10)), .item (some 127), .item (some (-4)), .item (some 126), .item (some 3), .item none, .len 0])) := by
   refine ⟨exD1_WF, by decide⟩
+
+/-! ### the same statement about the iterator translated from /repo/src (`Generated/Templates.lean`, `TRun.lean`) -/
+
+theorem stepFns_source (D : Derive) (tg : Target) (md : Modes) (h : D.WF) :
+    StepFns D.vals (T.next D tg md) (T.nextBack D tg md) :=
+  T.stepFnsT D tg md h (fun i hi => C05_next_index D h i hi) (fun i hi => C05_nextBack_index D h i hi)
+
+theorem cursor_of_bind {α : Type} (r : Res α) (f : α → List Int) (st : IterState Int)
+    (hr : (r.bind fun x => Res.ok (IterState.cursor (f x))) = .ok st) : ∃ l, st = .cursor l := by
+  cases r with
+  | ok a => simp only [Res.bind_ok] at hr; injection hr with e; exact ⟨f a, e.symm⟩
+  | panic w => simp at hr
+  | ub w => simp at hr
+
+theorem iterInit_cursor (D : Derive) (m : IterMode) (hm : m ≠ .nextAndBack) (st : IterState Int) (hi : iterInit D m = .ok st) :
+    ∃ l, st = .cursor l := by
+  cases m with
+  | nextAndBack => exact absurd rfl hm
+  | range => exact cursor_of_bind _ (fun l => l) st hi
+  | auto => simp only [iterInit] at hi; injection hi with e; exact ⟨_, e.symm⟩
+  | table => simp only [iterInit] at hi; injection hi with e; exact ⟨_, e.symm⟩
+  | tableInline => simp only [iterInit] at hi; injection hi with e; exact ⟨_, e.symm⟩
+
+/-- `iter()` as the source is written now — its constructor in each mode and the hand-written
+`next_and_back` methods — is observationally a cursor over the sorted variants under every finite history -/
+theorem C06_source (D : Derive) (tg : Target) (md : Modes) (h : D.WF) (ht : tg.WF)
+    (hm : md.iter ≠ .auto) (hr : md.iter = .range → D.gapless = true) (ops : List Op) (fin : Fin) :
+    ∃ st st', T.iter D tg md = .ok st ∧
+      T.runT D tg md st ops = .ok (st', (Cursor.run (spec.iter D.sem) ops).2) ∧
+      T.finishT D tg md st' fin = .ok (Cursor.finish (Cursor.run (spec.iter D.sem) ops).1 fin) := by
+  obtain ⟨st, hi, hsim⟩ := C06_init D h md.iter hm hr
+  have hmode : md.iter = .nextAndBack ∨ ∃ l', st = .cursor l' := by
+    by_cases hnb : md.iter = .nextAndBack
+    · exact Or.inl hnb
+    · exact Or.inr (iterInit_cursor D md.iter hnb st hi)
+  obtain ⟨st', h1, h2⟩ := T.observeT D tg md h ht (stepFns_source D tg md h) st _ hsim hmode ops fin
+  exact ⟨st, st', by rw [T.iter_eq D tg md hm]; exact hi, h1, h2⟩
 
 end ET.Thm
